@@ -103,9 +103,9 @@ harness("chunk_len28", "Chunk::try_from on [u8;28] (CRC stub)", False, bound="le
 harness("chunk_len32", "Chunk::try_from on [u8;32] (CRC stub)", False, bound="length 32, all bytes, crc32c replaced by a stub", timeout=1500, decode=bytes_op("chunk", 32))
 harness("chunk_other_lengths", "Chunk::try_from on lengths 0..=31 except 28", False, bound="lengths <= 31", timeout=1500, decode=bytes_len_op("chunk", 31))
 harness("pwb_0ch", "PwbV2Packet::try_from on 56 bytes, no channel sent, <=2 threshold bits", False, bound="56 bytes, 0 sent channels, <=2 threshold bits", timeout=3000)
-harness("fifo_word_complete", "chronobox::fifo_entry on every 4-byte word", True, bound="all 2^32 words")
+harness("fifo_word_complete", "chronobox::fifo_entry on every 4-byte word", True, bound="all 2^32 words", decode=bytes_op("fifo", 4))
 harness("fifo_word_short", "chronobox::fifo_entry on 0..=3 bytes", True, bound="all inputs shorter than a word")
-harness("fifo_word_then_rest", "chronobox::fifo_entry leaves the following 4 bytes untouched", True, bound="all 8-byte inputs")
+harness("fifo_word_then_rest", "chronobox::fifo_entry leaves the following 4 bytes untouched", True, bound="all 8-byte inputs", decode=bytes_op("fifo", 8))
 harness("scalers_block_lengths", "chronobox::scalers_block at 0,3,4,243,244,245,248 bytes", True, bound="all bytes at the lengths where the verdict can change (take(240) is length-uniform)")
 harness("cal_wire_complete", "wire calibration closure of MainEvent::try_from_banks (extracted expression)", True,
         bound="all v: i16, baseline: i16; gain in {3.0, -0.5, 1.0}", timeout=1500, frag="frag_phys")
